@@ -10,11 +10,12 @@ namespace photospline{
 	
 std::vector<uint32_t> readOrder(fitsfile* fits, uint32_t ndim);
 bool reservedFitsKeyword(const char* key);
-///Whether the value of a header keyword is a plain integer literal.
+///Read a header keyword whose value must be a plain non-negative integer.
 ///cfitsio's own conversion of keyword values to integers formats an error
 ///message around a value it cannot convert, and overruns the message buffer
-///when that value is long, so it must only be given values it can convert.
-bool integerFitsKeyword(fitsfile* fits, const char* key);
+///when that value is long, so the value string is parsed here instead.
+///\returns whether the keyword exists and has such a value
+bool integerFitsKeyword(fitsfile* fits, const char* key, uint32_t& result);
 uint32_t countAuxKeywords(fitsfile* fits);
 
 template<typename Alloc>
@@ -313,9 +314,8 @@ bool splinetable<Alloc>::read_fits_core_impl(fitsfile* fits, const std::string& 
 	//(the status left behind by the scan of the auxiliary keywords must not
 	//make this look-up fail)
 	error = 0;
-	if (!integerFitsKeyword(fits, "ORDER"))
+	if (!integerFitsKeyword(fits, "ORDER", order[0]))
 		error = KEY_NO_EXIST;
-	fits_read_key(fits, TINT, "ORDER", &order[0], NULL, &error);
 	if (error != 0) {
 		error = 0;
 		
@@ -323,9 +323,8 @@ bool splinetable<Alloc>::read_fits_core_impl(fitsfile* fits, const std::string& 
 		for (unsigned i = 0; i < ndim; i++) {
 			std::ostringstream ss;
 			ss << "ORDER" << i;
-			if (!integerFitsKeyword(fits, ss.str().c_str()))
+			if (!integerFitsKeyword(fits, ss.str().c_str(), order[i]))
 				error = BAD_INTKEY;
-			fits_read_key(fits, TUINT, ss.str().c_str(), &order[i], NULL, &error);
 			if (error != 0)
 				throw std::runtime_error("Unable to read order for dimension "+std::to_string(i));
 		}
